@@ -1,3 +1,35 @@
+_CHAINSIM_ASSUME = [
+ "the reference world's blocks are valid or invalid by construction: generated spends are trivially satisfiable / correctly signed with the repo's signing helpers, or deliberately broken in exactly one way; script semantics are not re-implemented",
+ "storage under the node is the in-memory stub memdb (commit log, prefix crashes) unless a run draws real ffldb; the producers of blocks and transactions are the harness",
+ "one external event per quiescent point; the schedule explored is the order and timing of deliveries, restarts, flushes, clock moves and faults",
+]
+_CHAINSIM_RULE = ("one run = one seeded world (synthetic network parameters, block tree with forks, mutants violating exactly one rule or sitting exactly at a limit) "
+ "delivered to a real node in a seeded order (in order, child-before-parent, duplicates) interleaved with restarts, cache flushes, clock advances and skewed time samples; "
+ "non-trivial = at least one reorganisation or one invalid block judged (plus the property-specific condition); distinct = hash of the abstract event sequence "
+ "(profile, delivered block classes, restart/flush kinds, reorg/invalid/restart counts, tree size class)")
+
 CHECKS = {
+ "C01": dict(engine="chainsim", race=False, level="exploration", rule=_CHAINSIM_RULE, assumptions=_CHAINSIM_ASSUME, cpus=2,
+             quick=dict(runs=250, budget=60), thorough=dict(budget=900), det_runs=40),
+ "C02": dict(engine="chainsim", race=False, level="exploration", rule=_CHAINSIM_RULE, assumptions=_CHAINSIM_ASSUME, cpus=2,
+             quick=dict(runs=250, budget=60), thorough=dict(budget=900), det_runs=40),
+ "C03": dict(engine="chainsim", race=False, level="exploration", rule=_CHAINSIM_RULE, assumptions=_CHAINSIM_ASSUME, cpus=2,
+             quick=dict(runs=200, budget=60), thorough=dict(budget=900), det_runs=40),
+ "C19": dict(engine="v2sim", race=False, level="exploration",
+             rule=("one run = one BIP324 session between two endpoints over a harness-owned byte stream: mode (M1 real<->real, M2 real<->reference endpoint bip324ref with the real side in either role, "
+                   "M3rr adversary between two real peers, M3ref adversary / misbehaving reference against a real peer), network magic, garbage length per side (weighted to 0,1,15,16,17,4094,4095), "
+                   "0-6 handshake decoys per side, 0-700 application packets per direction (classes 0-4 / 5-60 / 225-300 / 450-700; sizes 0..70000 and rarely 2^24-1; ~15% ignore flag), seeded delivery chunking "
+                   "(1 byte .. whole buffer) and delays, and in M3 one fault (bit flip, multi-byte flip, range drop, range replay, swap of adjacent segments, truncate+close, injection incl. reflected packet, wrong AAD on send / on receive / "
+                   "in the handshake, wrong garbage terminator) at a seeded place (key, garbage, terminator, handshake packet, application packet length/body/tag/whole packet, packet next to a rekey boundary, end of stream). "
+                   "non-trivial = a handshake completed and (at least one rekey boundary was crossed or the victim consumed the first tampered byte); "
+                   "distinct = hash of (mode, role and kind of each side, garbage class, packet-count class, decoy count class, reference key-encoding class, fault kind, fault position class, part of the stream where the tampering was consumed, rekey epochs reached per direction)"),
+             assumptions=[
+              "the byte stream is the stub simstream (reliable and ordered unless the adversary acts; writes never block); each endpoint has one reader goroutine, packets are sent from the driver goroutine, as btcd's peer does with separate in/out handlers",
+              "the reference endpoint bip324ref is written from the BIP324 text on x/crypto chacha20/chacha20poly1305 and stdlib HKDF; secp256k1 point multiplication and the XSwiftEC map are the repository's own (btcec, btcec/ellswift) and are anchored by replaying the published BIP324 packet-encoding vectors at the start of every worker (failure = harness error)",
+              "private key, session id of a real peer are read through reflection (observation only); keys and garbage of real peers come from crypto/rand seeded by testing/cryptotest",
+              "one fault per run; after the first error returned by V2ReceivePacket the caller stops reading (as a real caller must disconnect)",
+              "the v1-prefix downgrade path of RespondV2Handshake is not driven (not part of the statement as judged here)",
+             ],
+             cpus=2, quick=dict(runs=450, budget=60), thorough=dict(budget=900), det_runs=30),
  "C99": dict(engine="smoke", race=False, level="exploration", rule="smoke", assumptions=[], quick=dict(runs=100, budget=20), thorough=dict(budget=30)),
 }
